@@ -14,7 +14,15 @@ HARNESSES = {
     'mc_endpointer': dict(src=['mc_endpointer.c'], flavour='asan', ldflags=['-Wl,--wrap=vad_classify']),
     'mc_numeric': dict(src=['mc_numeric.c'], flavour='ovf', ldflags=['-Wl,--wrap=acmod_score']),
     'mc_hmm': dict(src=['mc_hmm.c'], flavour='ovf'),
+    'mc_blkarray': dict(src=['mc_blkarray.c'], flavour='asan'),
 }
+
+
+def _blk_runs(prop):
+    """the block array of the search history driven directly (harness/mc_blkarray.c)"""
+    if prop == 'C02':
+        return [dict(h='mc_blkarray', label='blkarray-default-geometry-2M-appends', args=['--appends', '2000000'])]
+    return [dict(h='mc_blkarray', label='blkarray-%s' % g, args=['--geom', g]) for g in ('3x2', '2x3', '4x1', '1x4', '5x3')]
 
 
 def _hmm_runs(regime, tier):
@@ -227,6 +235,10 @@ def _c02_specs(tier):
     # the dictionary built with decoder_add_word instead of read from its file: lazily filled cross-word triphone tables
     sp.append(('c02-open-addwords-enum22', ['--conf', 'open', '--gset', 'enum:2:2', '--words', 'go,goat,ago', '--syms', 'SIL,G,OW,T,AH,_', '--segs', '3',
                                             '--routes', 'api', '--patterns', '1', '--addwords', '1']))
+    # the whole utterance in ONE full-utterance call with every kind of partial result asked for before decoder_end_utt (which then searches nothing more)
+    sp.append(('c02-open-fullutt-partial-enum22', ['--conf', 'open', '--gset', 'enum:2:2', '--words', 'a,go', '--probs', '1,0.5', '--syms', 'SIL,AH,G,OW,_', '--segs', '3',
+                                                   '--routes', 'api', '--patterns', '1', '--pattern', '2']))
+    sp.append(('c02-default-fullutt-partial-hand', ['--conf', 'default', '--gset', 'hand', '--syms', 'SIL,AH,G,OW,T,_', '--segs', '3', '--routes', 'api', '--patterns', '1', '--pattern', '2']))
     for conf in ('default', 'tight'):
         sp.append(('c02-%s-enum23' % conf, ['--conf', conf, '--gset', 'enum:2:3', '--words', 'a,go,no', '--syms', SYM3, '--segs', '2',
                                            '--routes', 'api', '--patterns', '1']))
@@ -516,7 +528,7 @@ CHECKS = {
         min_nontrivial_ratio=0.05,
         title='with pruning disabled the search returns the true Viterbi optimum',
         level='exploration',
-        runs={'quick': _dec_runs('C02', _c02_specs('quick')) + _hmm_runs('A', 'quick'), 'thorough': _dec_runs('C02', _c02_specs('thorough')) + _hmm_runs('A', 'thorough')},
+        runs={'quick': _dec_runs('C02', _c02_specs('quick')) + _hmm_runs('A', 'quick') + _blk_runs('C02'), 'thorough': _dec_runs('C02', _c02_specs('thorough')) + _hmm_runs('A', 'thorough') + _blk_runs('C02')},
         budget_s={'quick': 400, 'thorough': 3000},
         coverage=ex_cov,
         rule='grammars x utterances as for C01, beams fully open (beam=pbeam=wbeam=0, maxhmmpf=-1) x {fillers on/off, alternates on/off, '
@@ -588,7 +600,7 @@ CHECKS = {
     'C09': dict(
         title='no sequence of API calls corrupts memory, aborts, or leaks',
         level='exploration',
-        runs={'quick': _ses_runs('C09', _c09_specs('quick')), 'thorough': _ses_runs('C09', _c09_specs('thorough'))},
+        runs={'quick': _ses_runs('C09', _c09_specs('quick')) + _blk_runs('C09'), 'thorough': _ses_runs('C09', _c09_specs('thorough')) + _blk_runs('C09')},
         budget_s={'quick': 600, 'thorough': 5400},
         coverage=ex_cov,
         rule='every API history up to length 2 over all 47 operations, length 3 over the 18-operation core, length 5 over the 7-operation '
